@@ -3,6 +3,8 @@ package main
 // interp.go — interpreter of the top-level case language over real afero filesystems.
 
 import (
+	iofs "io/fs"
+	"sort"
 	"fmt"
 	"os"
 	"regexp"
@@ -254,6 +256,21 @@ func execHandle(f afero.File, name string, a []string) string {
 		}
 		return "ok"
 	case "HReaddir":
+		// a third of the calls (by the digest of the arguments) use the io/fs spelling ReadDir of
+		// handles that have one (mem.File): same entries, same error
+		if rd, ok := f.(iofs.ReadDirFile); ok && fnvStr(strings.Join(a, ","))%3 == 0 {
+			des, err := rd.ReadDir(atoi(a[0]))
+			parts := make([]string, len(des))
+			for i, de := range des {
+				d := "f"
+				if de.IsDir() {
+					d = "d"
+				}
+				parts[i] = hx([]byte(de.Name())) + "|" + d
+			}
+			sort.Strings(parts)
+			return listRes("infos", strings.Join(parts, ","), len(des), err)
+		}
 		l, err := f.Readdir(atoi(a[0]))
 		return listRes("infos", fisS(l), len(l), err)
 	case "HReaddirnames":
